@@ -196,55 +196,85 @@ CONSTANTS
   Ids <- {ids}
   MaxPkts = {n}
   Kinds <- {kinds}
+  Extra <- {extra}
   Outcomes <- {outs}
   Imm = {imm}
   GateProto = {gp}
+  MaxRecv = {mr}
+  MaxRecvSize = {mrs}
+  RecvMax = {rm}
+  MaxQos = {mq}
+  AliasMax = {am}
+  Strict = {strict}
 VIEW view
 INVARIANT TypeOk
 CHECK_DEADLOCK FALSE
 """
 
-PKT = {"pub0": ("publish", 0), "pub1": ("publish", 1), "pub2": ("publish", 2)}
+INB_DEFAULTS = dict(extra="XNone", mr=0, mrs=0, rm=0, mq=2, am=2, strict=0)
+
+
+def ep_cfg(params):
+    """harness configuration that corresponds to the constants of MC_Endpoint"""
+    ver, role = params["ver"], params["role"]
+    cfg = dict(role=role, ver=ver, gate_pub=1, gate_proto=1 if params["gp"] == "TRUE" else 0,
+               max_qos=params["mq"], max_receive=params["mr"] if ver == 3 else 16, max_receive_size=params["mrs"])
+    if ver == 5:
+        if params["rm"]:
+            cfg["ack_receive_max" if role == "server" else "client_receive_max"] = params["rm"]
+        cfg["max_topic_alias" if role == "server" else "client_topic_alias_max"] = params["am"]
+    if params.get("strict"):
+        cfg["strict"] = params["strict"]
+    return cfg
+
+
+def ep_pkt(p, ver, vary, npub):
+    """packet record of the model -> harness packet descriptor"""
+    k = p["kind"]
+    if k == "pub":
+        q, i = p["q"], p["id"]
+        d = {"t": "publish", "q": q, "id": i if q else 0, "topic": "t" * 40 if p["topic"] == "long" else p["topic"],
+             "plen": p["plen"], "fill": 0x61 + i + q}
+        if p["alias"]:
+            d["alias"] = p["alias"]
+        if vary:
+            # data the model abstracts from (decided by ProtoMon's C03 rules): payload length, flags, properties
+            d["plen"] = 1 + (i % 2) * 2
+            npub[0] += 1
+            if npub[0] % 2 == 0:
+                d.update(retain=1 if q != 2 else 0, dup=1 if q == 1 else 0)
+                if ver == 5:
+                    d.update(up=1 + npub[0] % 3, ct="text/x", rt="re/ply", cd="corr", mei=7, pfi=1)
+        return d
+    if k == "pubrel":
+        return {"t": "pubrel", "id": p["id"]}
+    if k == "sub":
+        return {"t": "subscribe", "id": p["id"]}
+    if k == "unsub":
+        return {"t": "unsubscribe", "id": p["id"]}
+    if k == "ping":
+        return {"t": "pingreq"}
+    raise ValueError(k)
 
 
 def inb_decode_for(params):
     def dec(tokens, _variant):
-        ver, role = params["ver"], params["role"]
-        cfg = dict(role=role, ver=ver, gate_pub=1, gate_proto=1 if params["gp"] == "TRUE" else 0,
-                   max_qos=2, max_receive=0 if ver == 3 else 16, max_receive_size=0)
-        cmds = [handshake(role, ver)]
+        ver = params["ver"]
+        cfg = ep_cfg(params)
+        cmds = [handshake(params["role"], ver, connect={"rm": 16} if ver == 5 else None)]
         npub = [0]
+        vary = params["mrs"] == 0 and params["extra"] == "XNone"
         # variant "code16": a handler that succeeds answers with the success code "no matching
         # subscribers" (0x10) instead of 0 - the exchange must go on exactly as for code 0
         okc = (lambda c: dict(c, o="nack_ok", code=16) if c["o"] == "ok" else c) if _variant == "code16" else (lambda c: c)
         for t in tokens:
-            if t[0] == "i":
-                kind, i, mode = t[1:].split(":")
-                i = int(i)
-                if mode != "g":
-                    cmds.append(okc({"c": "arm", "o": mode, "code": 135}))
-                if kind in PKT:
-                    q = PKT[kind][1]
-                    p = {"t": "publish", "q": q, "id": i if q else 0, "topic": "t", "plen": 1 + (i % 2) * 2, "fill": 0x61 + i + q}
-                    npub[0] += 1
-                    if npub[0] % 2 == 0:          # every second publish: flags and (MQTT 5) properties
-                        p.update(retain=1 if q != 2 else 0, dup=1 if q == 1 else 0)
-                        if ver == 5:
-                            p.update(up=1 + npub[0] % 3, ct="text/x", rt="re/ply", cd="corr", mei=7, pfi=1)
-                    cmds.append({"c": "in", "p": p})
-                elif kind == "pubrel":
-                    cmds.append({"c": "in", "p": {"t": "pubrel", "id": i}})
-                elif kind == "sub":
-                    cmds.append({"c": "in", "p": {"t": "subscribe", "id": i}})
-                elif kind == "unsub":
-                    cmds.append({"c": "in", "p": {"t": "unsubscribe", "id": i}})
-                elif kind == "ping":
-                    cmds.append({"c": "in", "p": {"t": "pingreq"}})
-                else:
-                    raise ValueError(t)
-            elif t[0] == "c":
-                h, o = t[1:].split(":")
-                cmds.append(okc({"c": "complete", "h": int(h), "o": o, "code": 135}))
+            if t["a"] == "in":
+                for o in t["arm"]:
+                    cmds.append(okc({"c": "arm", "o": o, "code": 135}))
+                pk = [ep_pkt(p, ver, vary, npub) for p in t["pk"]]
+                cmds.append({"c": "in", "p": pk[0]} if len(pk) == 1 else {"c": "in", "pkts": pk})
+            elif t["a"] == "c":
+                cmds.append(okc({"c": "complete", "h": t["h"], "o": t["o"], "code": 135}))
             else:
                 raise ValueError(t)
         cmds.append({"c": "drain"})
@@ -268,23 +298,21 @@ def inb_configs(tier):
                 # QoS 2 towards a client: known finding (acknowledged with PUBACK), kept small
                 base.append(("q2", dict(ids="Ids1", n=2, kinds="KPub2", outs="OOk", imm=T, gp=F)))
             for name, p in base:
-                p = dict(p, ver=ver, role=role)
+                p = dict(INB_DEFAULTS, **dict(p, ver=ver, role=role))
                 cs.append((f"v{ver}{role[0]}_{name}", INB_CFG.format(**p), "MC_Endpoint", inb_decode_for(p),
                            [None, "code16"] if ver == 5 and srv and name in ("pub", "ids") else [None]))
     return cs
 
 
 def inb_tok2rec(t):
-    if t[0] == "i":
-        kind, i, mode = t[1:].split(":")
-        return dict(a="in", kind=kind, id=int(i), imm=0 if mode == "g" else 1, o="ok" if mode == "g" else mode, h=0)
-    h, o = t[1:].split(":")
-    return dict(a="c", kind="", id=0, imm=0, o=o, h=int(h))
+    return t
 
 
 def inb_project(e):
-    # h_start.r carries the PUBLISH flags the handler saw (decided by ProtoMon's C03 rules, not by the model)
-    return dict(e=e["e"], k=e["k"], s=e["s"], id=e["id"], q=e["q"], r=0 if e["e"] in ("h_start", "h_end") else e["r"])
+    # h_start.r carries the PUBLISH flags the handler saw, h_end.r the armed code (decided by ProtoMon's C03
+    # rules, not by the model); x: only the topic a publish handler was given is compared
+    return dict(e=e["e"], k=e["k"], s=e["s"], id=e["id"], q=e["q"], r=0 if e["e"] in ("h_start", "h_end") else e["r"],
+                x=e["x"] if e["e"] == "h_start" and e["k"] == "pub" else "")
 
 
 def inb_random(tier, rnd):
@@ -512,7 +540,11 @@ def c17_decode_for(ver, role, router, warm):
 
 
 def c17_configs(tier):
-    cs = []
+    T, F = "TRUE", "FALSE"
+    n = 3 if tier == "quick" else 4
+    cs = [ep_config(f"m_v5{r[0]}", quota=700 if tier == "quick" else 100000, ver=5, role=r, ids="Ids12", n=n, kinds="KNone",
+                    extra="XAlias" if tier == "quick" else "XAliasQ1", outs="OOk", imm=T, gp=F, am=2, strict=17)
+          for r in ("server", "client")]
     L = 3 if tier == "quick" else 4
     for role, router, warm in (("server", 0, 0), ("server", 1, 0), ("server", 0, 1), ("server", 1, 1),
                                ("client", 0, 0), ("client", 1, 0)):
@@ -694,8 +726,32 @@ def c12_decode_for(kind, maxrecv, size):
     return dec
 
 
+def ep_config(name, variants=(None,), quota=None, **p):
+    p = dict(INB_DEFAULTS, **p)
+    t = (name, INB_CFG.format(**p), "MC_Endpoint", inb_decode_for(p), list(variants))
+    return t + ((quota,) if quota else ())
+
+
+def c12_model_configs(tier):
+    """behaviours of the implementation-shaped model (Endpoint.tla) under receive limits: bursts decoded from one
+    read, handler completions between arrivals; monitor composed in TLC, replayed, validated event by event"""
+    T, F = "TRUE", "FALSE"
+    n = 4 if tier == "quick" else 5
+    q = 500 if tier == "quick" else 100000
+    return [
+        ep_config("m_v3s_r1", quota=q, ver=3, role="server", ids="Ids123", n=n, kinds="KLim", extra="XBurst", outs="OOk", imm=F, gp=F, mr=1),
+        ep_config("m_v3s_r2", quota=q, ver=3, role="server", ids="Ids123", n=n, kinds="KLim", extra="XBurstCtl", outs="OOk", imm=T, gp=T, mr=2),
+        ep_config("m_v3s_s40", quota=q, ver=3, role="server", ids="Ids123", n=n, kinds="KLimBig", extra="XBurst", outs="OOk", imm=F, gp=F, mrs=40),
+        ep_config("m_v5s_s40", quota=q, ver=5, role="server", ids="Ids123", n=n, kinds="KLimBig", extra="XBurst", outs="OOk", imm=F, gp=F, mrs=40),
+        ep_config("m_v5s_rm1", quota=q, ver=5, role="server", ids="Ids12", n=n, kinds="KPub12", extra="XBurst", outs="ONack", imm=F, gp=F, rm=1),
+        ep_config("m_v5s_rm2", quota=q, ver=5, role="server", ids="Ids123", n=n, kinds="KPub12", extra="XBurst", outs="OOk", imm=F, gp=F, rm=2),
+        ep_config("m_v5c_rm1", quota=q, ver=5, role="client", ids="Ids12", n=n, kinds="KPub01", extra="XBurst", outs="OOk", imm=F, gp=F, rm=1),
+        ep_config("m_v3c_r2", quota=q, ver=3, role="client", ids="Ids123", n=n, kinds="KPub01", extra="XBurst", outs="OOk", imm=F, gp=F, mr=2),
+    ]
+
+
 def c12_configs(tier):
-    cs = []
+    cs = c12_model_configs(tier)
     L = 4 if tier == "quick" else 5
     combos = [("v3s", 1, 0), ("v3s", 2, 0), ("v3s", 0, 40), ("v3s", 2, 40), ("v3s", 0, 0),
               ("v5s", 1, 0), ("v5s", 2, 0), ("v5c", 1, 0), ("v5c", 2, 0), ("v5s", 2, 40),
@@ -716,7 +772,7 @@ def c12_configs(tier):
     # re-transmitted identifiers (token 10) against the Receive Maximum: every sequence up to 4 (quick) / 5
     for kind, mr in [("v5s", 1), ("v5s", 2), ("v5c", 1)]:
         cs.append((f"{kind}_r{mr}_dup", PKTSEQ_CFG.format(nt=10, maxlen=4 if tier == "quick" else 5, minlen=3), "PktSeq",
-                   c12_decode_for(kind, mr, 0), [None], 4000 if tier == "quick" else 100000))
+                   c12_decode_for(kind, mr, 0), [None], 1500 if tier == "quick" else 100000))
     return cs
 
 
